@@ -54,6 +54,12 @@ CHECKS = {
             "malformed constructs; libFuzzer campaign on fuzz_rx.c (crash-/leak- artifacts are violations).",
             "Astronomically ambiguous patterns (F22) are excluded by an independent analysis and counted; libFuzzer campaigns are only "
             "approximately reproducible (the saved artifact is the reproducible unit).", "3/C11"),
+    "C14": ("exploration", "property-based testing of :s against a reference scanner built on the reference ERE matcher",
+            "Generated (buffer, range, grammar pattern incl. empty-matching and multi-group ones, replacement with \\0-\\9 and escapes, "
+            "g, ic, pattern reuse, bare :s) executed by the real binary; the written file must equal the reference scan of each "
+            "original line in whole-line context; UTF-8 validity of the result.",
+            "Reference matcher/scanner trusted; depth-limit runs discarded via the hook counter; F10 (word boundaries judged "
+            "against the resumed suffix) is a known finding recognised by a second, suffix-context prediction.", "3/C14"),
 }
 
 ALL = ["C%02d" % i for i in range(1, 21)]
